@@ -1827,6 +1827,137 @@ def part_isolation_and_burst(cx: Ctx):
                         n, len(got))
 
 
+# ---------------------------------------------------------------------------------------------- (xi) stale replies, handler level - WITHOUT the tap
+def part_stale_and_handler(cx: Ctx):
+    """(a) a duplicate reply / a reply landing exactly at T3 expiry reaches the request's queue just before the requester removes it; THEN a
+    NEW request must get its own reply and nothing else.  (b) a real SecsHandler on top of the protocol: an inbound S9F3/5/7 (no callback
+    registered) whose MHEAD names the outstanding request goes the unknown-function way; the requester gets its own reply, or None at T3."""
+    res = cx.res
+    import secsgem.secs
+    # ---- (a)
+    for variant in ("duplicate reply", "reply at T3 expiry"):
+        r = PlainRig("stale", t3=120.0 if variant == "duplicate reply" else 0.3)
+        if not r.connect():
+            return
+        gate = threading.Event()
+        at_gate = threading.Event()
+        orig_remove = r.p._remove_queue
+
+        def gated_remove(system_id, gate=gate, at_gate=at_gate, orig_remove=orig_remove):
+            at_gate.set()  # the requester has its result (or its timeout) and is about to remove its queue
+            gate.wait(120)
+            return orig_remove(system_id)
+
+        r.p._remove_queue = gated_remove
+        out = {}
+
+        def call(key, fn):
+            try:
+                out[key] = r.p.send_and_waitfor_response(Fn(1, fn))
+            except BaseException as exc:  # noqa: BLE001
+                out[key] = exc
+
+        t1 = threading.Thread(target=call, args=("first", 1), daemon=True)
+        t1.start()
+        if not wait_until(lambda: bool(r.c.data_systems())):
+            res.violate("c06-request-hang", "request never reached the wire", {"part": "stale"})
+            continue
+        k1 = r.c.data_systems()[0][0]
+        if variant == "duplicate reply":
+            r.feed(data_msg(k1, 1, 2))
+        wait_until(at_gate.is_set)  # reply received / T3 (0.3 s, real) run out; the queue is still registered
+        r.feed(data_msg(k1, 1, 2))  # the duplicate / the late reply: it still finds the request's queue
+        r.quiesce()
+        r.p._remove_queue = orig_remove
+        gate.set()
+        join(t1)
+        # a NEW request
+        t2 = threading.Thread(target=call, args=("second", 3), daemon=True)
+        t2.start()
+        wait_until(lambda: len(r.c.data_systems()) >= 2)
+        wire = r.c.data_systems()
+        if len(wire) >= 2:
+            k2 = wire[1][0]
+            time.sleep(0)  # (no observation depends on this)
+            r.feed(data_msg(k2, 1, 4))
+        else:
+            k2 = None
+        join(t2)
+        r.quiesce()
+        first, second = out.get("first"), out.get("second")
+        case = {"part": "stale", "variant": variant, "first_request": k1, "second_request": k2,
+                "first_returned": repr(first) if isinstance(first, BaseException) else show_result(first),
+                "second_returned": repr(second) if isinstance(second, BaseException) else show_result(second), "application_got": r.got()}
+        res.count(("stale", variant), sample=case)
+        problems = []
+        if variant == "duplicate reply" and (isinstance(first, BaseException) or first is None or first.header.system != k1):
+            problems.append("the first requester did not get its reply")
+        if variant != "duplicate reply" and first is not None:
+            problems.append("the first requester got something although its reply only came when T3 had run out")
+        if isinstance(second, BaseException) or second is None or second.header.system != k2 or second.header.function != 4:
+            problems.append(f"a NEW request did not get its own reply S1F4 ({k2}) but " + case["second_returned"]
+                            + " - a message that belonged to the earlier, finished transaction")
+        if problems:
+            res.violate("c06-stale-reply", f"{variant} just before the requester removed its queue: " + "; ".join(problems), case,
+                        {"second": f"{k2}:260"}, case["second_returned"])
+    # ---- (b) handler level
+    for fn9 in (3, 5, 7) if cx.big else (3, 7):
+        for variant in ("then reply", "no reply"):
+            settings = Settings(connect_mode=secsgem.hsms.HsmsConnectMode.PASSIVE, t3=120.0 if variant == "then reply" else 0.4)
+            handler = secsgem.secs.SecsHandler(settings)
+            r = PlainRig.__new__(PlainRig)
+            r.name, r.settings, r.p = "handler", settings, handler.protocol
+            r.p._linktest_timeout = 10 ** 6
+            r.c = r.p._connection
+            r.watch_threads()
+            r.events, r.ev_lock, r.gate = [], threading.Lock(), None
+            r.p.events.message_received += r._on_message
+            if not r.connect():
+                return
+            out = {}
+
+            def call(out=out, handler=handler):
+                try:
+                    out["r"] = handler.send_and_waitfor_response(handler.stream_function(1, 1)())
+                except BaseException as exc:  # noqa: BLE001
+                    out["r"] = exc
+
+            t = threading.Thread(target=call, daemon=True)
+            t.start()
+            if not wait_until(lambda: bool(r.c.data_systems())):
+                res.violate("c06-request-hang", "request never reached the wire", {"part": "handler"})
+                continue
+            k = r.c.data_systems()[0][0]
+            with r.c.lock:
+                req = [b for b in r.c.frames if b.header.s_type.value == 0][0]
+            mhead = bytes(req.header.encode())
+            s9 = handler.stream_function(9, fn9)(mhead)
+            r.feed(HsmsMessage(HsmsStreamFunctionHeader(4242, 9, fn9, False, 0), s9.encode()))
+            r.quiesce()
+            if variant == "then reply":
+                r.feed(HsmsMessage(HsmsStreamFunctionHeader(k, 1, 2, False, 0), handler.stream_function(1, 2)(["m", "1"]).encode()))
+            join(t)
+            r.quiesce()
+            got = out.get("r")
+            case = {"part": "handler", "variant": variant, "inbound": f"S9F{fn9} with MHEAD = header of the outstanding S1F1 ({k})",
+                    "returned": repr(got) if isinstance(got, BaseException) else show_result(got), "application_got": r.got()}
+            res.count(("handler", fn9, variant), sample=case if fn9 == 3 else None)
+            res.bump("handler_level_S9_with_MHEAD_of_an_open_request", f"S9F{fn9} {variant}")
+            problems = []
+            if isinstance(got, BaseException):
+                problems.append("send_and_waitfor_response raised " + repr(got))
+            elif got is not None and got.header.stream == 9:
+                problems.append(f"the requester of S1F1 received the peer's S9F{fn9} (a foreign primary) instead of its reply / T3")
+            elif variant == "then reply" and (got is None or got.header.system != k or got.header.function != 2):
+                problems.append("the requester did not get its own reply S1F2")
+            elif variant == "no reply" and got is not None:
+                problems.append("the requester got a message although no reply arrived")
+            if (4242, 9 * 256 + fn9) not in r.got():
+                problems.append(f"the S9F{fn9} did not reach the application / unknown-function path")
+            if problems:
+                res.violate("c06-foreign-primary-to-requester", "; ".join(problems), case, "S1F2 / None", case["returned"])
+
+
 # ---------------------------------------------------------------------------------------------- static tie: the SECS-I routing branch
 def part_static_tie(cx: Ctx):
     """the harness drives HSMS; the SECS-I endpoint shares Protocol.send_and_waitfor_response and has its own copy of the routing branch:
@@ -1971,6 +2102,11 @@ def main():
             current["part"] = "part_reply_functions"
             part_reply_functions(cx)
             res.bump("part_wall_s", "part_reply_functions", round(time.time() - _t, 1))
+        if want("stale") or want("handler"):
+            _t = time.time()
+            current["part"] = "part_stale_and_handler"
+            part_stale_and_handler(cx)
+            res.bump("part_wall_s", "part_stale_and_handler", round(time.time() - _t, 1))
         if want("isolation") or want("burst"):
             _t = time.time()
             current["part"] = "part_isolation_and_burst"
